@@ -146,7 +146,7 @@ func genName(r *rand.Rand, idx int, tame bool) []byte {
 	if !tame && r.Intn(10) == 0 { // names with spaces / bytes outside ASCII
 		for i := range n {
 			if r.Intn(4) == 0 {
-				n[i] = []byte{' ', 0x80, 0xff, 0x7f, 0x01, '"', '\\'}[r.Intn(7)]
+				n[i] = []byte{' ', 0x80, 0xff, 0x7f, 0x01, '"', '\\', '%'}[r.Intn(8)]
 			}
 		}
 	}
@@ -160,9 +160,26 @@ func genName(r *rand.Rand, idx int, tame bool) []byte {
 				n[len(n)-1] = 'x'
 			}
 		}
+		// names that are format strings / escapes for a printf-like or shell-like sink: a stored name is
+		// data wherever the command prints it (follow-up wp-c19c, seeded defect c19-9: Fprintf(stdout, text))
+		if r.Intn(2) == 0 {
+			frag := fmtFrags[r.Intn(len(fmtFrags))]
+			if room := len(n) - len(s) - 1 - len(frag); room >= 0 {
+				copy(n[len(s)+1+r.Intn(room+1):], frag)
+			} else {
+				n = append(n, frag...)
+			}
+		}
 	}
 	return n
 }
+
+// fragments a stored name may contain that a careless sink would interpret: printf verbs (with flags,
+// width, argument index, a lone or trailing per cent sign, the escaped per cent sign), backslash escapes,
+// quotes, shell and template syntax
+var fmtFrags = []string{"%20", "%d", "%s", "%v", "%x%x", "%", "%%", "%!d", "%5$s", "%-8q", "%[1]d", "%n", "%+v%", "100%",
+	"\\n", "\\", "\\x41", "\"", "'", "\"%s\"", "$(x)", "`x`", "${HOME}", "$1", "{0}", "{{.}}", "%c%c", "%T", "% d", "%#x",
+	"/a/b", "//", "/../", "a/b/c/d"}
 
 func genPad(r *rand.Rand, nameLen int) int {
 	switch r.Intn(8) {
